@@ -22,6 +22,7 @@ ROOTS = [
     ("acceptor", "connected_app_sends_when_active"), ("initiator", "logon_sent_app_sends_when_active"),
     ("acceptor", "connected_app_disconnects_on_logon"), ("initiator", "logon_sent_app_disconnects_on_logon"),
     ("acceptor", "reconnected_after_drop_with_unread_bytes"),
+    ("acceptor", "connected_app_disconnects_on_state_change"), ("initiator", "logon_sent_app_disconnects_on_state_change"),
 ]
 CLASSES = ("logon", "hb", "tr", "rr", "gf", "rs", "logout", "app", "custom")
 DEFECTS = ("ok_at", "ok_above", "low", "low_pd", "bs", "no49", "no56", "bad49", "bad56", "swapped", "no34", "no108", "no98", "bad34", "dup34", "dup49", "dup108")
@@ -56,6 +57,8 @@ def build_root(role, name):
         w.c.send_on_state = "ACTIVE"
     if name.endswith("app_disconnects_on_logon"):
         w.c.disconnect_on_logon = True
+    if name.endswith("app_disconnects_on_state_change"):
+        w.c.disconnect_on_state = {"ACTIVE", "RECV_SEQNUM_TOO_HIGH"}
     w.connect()
     mon["ever_connected"] = True
     if name == "reconnected_after_drop_with_unread_bytes":
@@ -65,7 +68,7 @@ def build_root(role, name):
         w.advance(1.0)
         w.connect()
         return w, mon
-    if name in ("connected", "connected_no_logon", "logon_sent") or name.endswith("app_sends_when_active") or name.endswith("app_disconnects_on_logon"):
+    if name in ("connected", "connected_no_logon", "logon_sent") or name.endswith("app_sends_when_active") or name.endswith("app_disconnects_on_logon") or name.endswith("app_disconnects_on_state_change"):
         return w, mon
     w.logon()
     mon["logon_done"] = True
